@@ -286,7 +286,9 @@ def run(ctx):
             r = ix.inline(sym.unwrap(q.ret))
             found = False
             for x in sym.walk(r):
-                if tag(x) == "call" and payload(x)[0].endswith("::last"):
+                is_pop = tag(x) == "call" and payload(x)[0].endswith("::pop") and not any(tag(y) == "mutby" for y in sym.walk(kids(x)[0]))
+                if (tag(x) == "call" and payload(x)[0].endswith("::last")) or is_pop:
+                    # (`pop()` on the list as loaded - nothing removed from it before - hands out the same last element)
                     if any(guards.loaded_item(ix, y, PF) == "margined_pricefeed:prices" for y in sym.walk(kids(x)[0])):
                         found = True
                     for y in sym.walk(kids(x)[0]):
@@ -564,6 +566,24 @@ def run(ctx):
                     bad = bad or "price function signature not recognised"
                     continue
                 m = {ppar[0]: pv}
+                # the other arguments the TWAP function hands to the price function at its first call (a config / snapshot
+                # it has loaded itself and passes by reference), in the arm's terms
+                try:
+                    tw_par = [sym.param(twf.key, i, twf.param_name(i)) for i in range(twf.arg_count) if twf.locals[i + 1]["ty"].lstrip("&") in pty]
+                    first = None
+                    for p_ in ix.paths(twf):
+                        for e_ in p_.events:
+                            if e_.target is not None and e_.target.key == pricef.key:
+                                first = e_
+                                break
+                        if first is not None:
+                            break
+                    if first is not None and tw_par:
+                        for k_, v_ in ix.param_map(pricef, first.args).items():
+                            if k_ != ppar[0]:
+                                m[k_] = ix.inline(sym.subst(v_, {tw_par[0]: pv}))
+                except Exception:
+                    pass
                 feas = ix.ok_paths_at(pricef, m)
                 if not feas:
                     bad = bad or "no feasible path of the per-snapshot price function for this arm's parameters"
